@@ -83,33 +83,44 @@ class Family:
 
     # ---- B + C for model programs
     def replay_model(self, maxreq, limit=None):
-        for prog in self.programs:
+        """B+C for the model programs: TLC emits every client history of the bound, the real engine serves them, TLC judges the
+        recorded runs.  Generation and serving of the (program, mode) combinations run side by side; judging (itself parallel) in order."""
+        import concurrent.futures, time
+        jobs = [(prog, mode) for prog in self.programs for mode in self.modes]
+
+        def produce(job):
+            prog, mode = job
             pj = json.load(open(prog_path(prog)))
             nflags = 8 + pj['flagcount']
-            for mode in self.modes:
-                cfg = 'gen_%s_%s.cfg' % (prog, mode)
-                open(os.path.join(self.w, cfg), 'w').write(mc_cfg(mode, maxreq, nflags, emit=True, cap=pj.get('cachesize', 0)))
-                hp = os.path.join(self.d, 'hist_%s_%s.ndjson' % (prog, mode))
-                hists = []
-                with open(hp, 'w') as f:
-                    def sink(o):
-                        if limit and len(hists) >= limit:
-                            return
-                        h = to_history(o)
-                        hists.append(h)
-                        f.write(json.dumps(h) + '\n')
-                    r = core.tlc(self.w, 'ViseMC', cfg, workers=1, timeout=3000, mbt_sink=sink, env={'VERIF_PROG': prog_path(prog)})
-                core.require_tlc_ok(r, 'ViseMC generation %s/%s' % (prog, mode))
-                self.out.add_tlc('ViseMC behaviour generation %s mode=%s MaxReq=%d' % (prog, mode, maxreq), r)
-                if hists:
-                    self.out.sample(dict(kind='TLC-generated client history replayed on the real engine', program=prog, history=hists[len(hists) // 2]))
-                tr = os.path.join(self.d, 'trace_%s_%s.ndjson' % (prog, mode))
-                p = core.run_harness(['vise-run', prog_path(prog), hp, tr, mode])
-                summ = harness_summary(p)
-                self.out.cov['traces_validated_against_impl'] += summ['sessions']
-                program = json.load(open(prog_path(prog)))
-                self.validate(tr, 'replay of model history (%s, mode %s)' % (prog, mode),
-                              lambda ev: dict(program=program, history=hists[int(ev['sid'].rsplit('.h', 1)[1])]))
+            cfg = 'gen_%s_%s.cfg' % (prog, mode)
+            open(os.path.join(self.w, cfg), 'w').write(mc_cfg(mode, maxreq, nflags, emit=True, cap=pj.get('cachesize', 0)))
+            hp = os.path.join(self.d, 'hist_%s_%s.ndjson' % (prog, mode))
+            hists = []
+            r = core.tlc(self.w, 'ViseMC', cfg, workers=1, timeout=3000, mbt_sink=lambda o: hists.append(to_history(o)), env={'VERIF_PROG': prog_path(prog)})
+            core.require_tlc_ok(r, 'ViseMC generation %s/%s' % (prog, mode))
+            cap = limit or (None if self.thorough else 1500)
+            if cap and len(hists) > cap:
+                # quick tier: an even sample of the histories of the bound (every k-th in TLC's breadth-first order), all of them in the thorough tier
+                k = -(-len(hists) // cap)
+                self.out.cov.setdefault('history_sampling', []).append(dict(program=prog, mode=mode, histories=len(hists), every=k))
+                hists = hists[::k]
+            with open(hp, 'w') as f:
+                for h in hists:
+                    f.write(json.dumps(h) + '\n')
+            tr = os.path.join(self.d, 'trace_%s_%s.ndjson' % (prog, mode))
+            p = core.run_harness(['vise-run', prog_path(prog), hp, tr, mode])
+            return prog, mode, r, hists, tr, harness_summary(p)
+        core.build_harness()            # once, before the threads ask for it
+        with concurrent.futures.ThreadPoolExecutor(max_workers=max(1, min(4, core.NCPU // 3))) as ex:
+            results = list(ex.map(produce, jobs))
+        for prog, mode, r, hists, tr, summ in results:
+            self.out.add_tlc('ViseMC behaviour generation %s mode=%s MaxReq=%d' % (prog, mode, maxreq), r)
+            if hists:
+                self.out.sample(dict(kind='TLC-generated client history replayed on the real engine', program=prog, history=hists[len(hists) // 2]))
+            self.out.cov['traces_validated_against_impl'] += summ['sessions']
+            program = json.load(open(prog_path(prog)))
+            self.validate(tr, 'replay of model history (%s, mode %s)' % (prog, mode),
+                          lambda ev, hists=hists, program=program: dict(program=program, history=hists[int(ev['sid'].rsplit('.h', 1)[1])]))
 
     # ---- C for random programs
     def random(self, nprog, nsess, maxreq, mode='L'):
